@@ -512,7 +512,7 @@ theorem send0_publish (p : Send.St) (r : Req) (b : Nat) (t : Int) (h : PubIdle p
 /-! ### ids and wire messages of one `send`, whatever is queued -/
 
 theorem onReq_ffwd_facts (st : Send.St) (j : Nat) (r : Req) (t : Int) (h : (onReq st j r t).2.2 = .ffwd) :
-    st.msgId ≤ r.mid ∧ (onReq st j r t).1.minSendId = r.mid + 1 := by
+    st.msgId ≤ r.mid ∧ r.eph = 0 ∧ (onReq st j r t).1.minSendId = r.mid + 1 := by
   by_cases h1 : r.mid ≤ OF.Facts.MSG_ID_SPECIAL
   · exfalso
     unfold onReq at h
@@ -526,7 +526,7 @@ theorem onReq_ffwd_facts (st : Send.St) (j : Nat) (r : Req) (t : Int) (h : (onRe
       simp only [h1, ↓reduceIte, h2] at h
       cases h
     · by_cases h3 : r.mid ≥ st.msgId ∧ r.eph = 0
-      · refine ⟨h3.1, ?_⟩
+      · refine ⟨h3.1, h3.2, ?_⟩
         unfold onReq
         simp only [h1, ↓reduceIte, h2, h3, and_self, Bool.false_eq_true]
       · exfalso
@@ -568,7 +568,7 @@ theorem drain_facts : ∀ (f : Nat) (st : Send.St) (q : List Req) (t T : Int), P
     ((PubBusy (drain f st [0] t).1 [] ∧ (drain f st [0] t).1.minSendId = st.minSendId ∧
       (drain f st [0] t).1.msgId = st.msgId) ∨
      (∃ q', PubIdle (drain f st [0] t).1 q' ∧ (∃ pre, q = pre ++ q') ∧
-        ∃ r ∈ q, st.msgId ≤ r.mid ∧ (drain f st [0] t).1.minSendId = r.mid + 1)) := by
+        ∃ r ∈ q, st.msgId ≤ r.mid ∧ r.eph = 0 ∧ (drain f st [0] t).1.minSendId = r.mid + 1)) := by
   intro f
   induction f with
   | zero => intro st q t T _ _ _ hl; omega
@@ -585,17 +585,17 @@ theorem drain_facts : ∀ (f : Nat) (st : Send.St) (q : List Req) (t T : Int), P
       by_cases hff : (onReq (popped st q') 0 r t).2.2 = .ffwd
       · simp only [hff, ↓reduceIte, endCall]
         rw [drain_ended _ _ _ rfl]
-        have ⟨f1, f2⟩ := onReq_ffwd_facts _ _ _ _ hff
-        exact Or.inr ⟨q', ⟨g1.queues, g1.balance, g1.required, rfl, g1.minpos⟩, ⟨[r], rfl⟩, r, List.mem_cons_self .., f1, f2⟩
+        have ⟨f1, f2, f3⟩ := onReq_ffwd_facts _ _ _ _ hff
+        exact Or.inr ⟨q', ⟨g1.queues, g1.balance, g1.required, rfl, g1.minpos⟩, ⟨[r], rfl⟩, r, List.mem_cons_self .., f1, f2, f3⟩
       · simp only [hff, ↓reduceIte]
         have hmin : (onReq (popped st q') 0 r t).1.minSendId = st.minSendId := by
           rcases onReq_min (popped st q') 0 r t with ⟨_, e⟩ | ⟨e, _⟩
           · exact e
           · exact absurd e hff
         have hl' : q'.length < f := by simp at hl; omega
-        rcases ih _ q' t T g1 g2 ht hl' with ⟨i1, i2, i3⟩ | ⟨q'', i1, ⟨pre, i2⟩, x, hx, i3, i4⟩
+        rcases ih _ q' t T g1 g2 ht hl' with ⟨i1, i2, i3⟩ | ⟨q'', i1, ⟨pre, i2⟩, x, hx, i3, i4, i5⟩
         · exact Or.inl ⟨i1, by rw [i2, hmin], by rw [i3, g4]; rfl⟩
-        · refine Or.inr ⟨q'', i1, ⟨r :: pre, by rw [i2]; rfl⟩, x, List.mem_cons_of_mem _ hx, ?_, i4⟩
+        · refine Or.inr ⟨q'', i1, ⟨r :: pre, by rw [i2]; rfl⟩, x, List.mem_cons_of_mem _ hx, ?_, i4, i5⟩
           rw [g4] at i3; exact i3
 
 
@@ -608,22 +608,27 @@ theorem send0_facts (p : Send.St) (q : List Req) (payload : Payload) (t T : Int)
       p.minSendId ≤ (send0 p none payload false [0] t).1.minSendId ∧
       Stale T (send0 p none payload false [0] t).1.clients ∧
       (∀ w ∈ (send0 p none payload false [0] t).2.filterMap wireOf, w.mid = p.minSendId ∨ w.mid = OF.Facts.MSG_ID_HELLO) ∧
-      (q' = [] ∨ (∃ r ∈ q, p.minSendId ≤ r.mid ∧ (send0 p none payload false [0] t).1.minSendId = r.mid + 1 ∧
+      ((q' = [] ∧ ((send0 p none payload false [0] t).1.minSendId = p.minSendId ∨
+                   (send0 p none payload false [0] t).1.minSendId = p.minSendId + 1)) ∨
+       (∃ r ∈ q, p.minSendId ≤ r.mid ∧ r.eph = 0 ∧ (send0 p none payload false [0] t).1.minSendId = r.mid + 1 ∧
           (send0 p none payload false [0] t).2.filterMap wireOf = [])) := by
   rw [send0_unfold p q payload t h]
   have hb := beginPub_busy p q payload h
   have ⟨d1, d2, _⟩ := drain_spec (q.length + 1) (beginPub p payload) q t T hb hs ht (by omega)
   have hmsg : (beginPub p payload).msgId = p.minSendId := rfl
   have hmin0 : (beginPub p payload).minSendId = p.minSendId := rfl
-  rcases drain_facts (q.length + 1) (beginPub p payload) q t T hb hs ht (by omega) with ⟨e1, e2, e3⟩ | ⟨q', e1, e2, r, hr, e3, e4⟩
+  rcases drain_facts (q.length + 1) (beginPub p payload) q t T hb hs ht (by omega) with ⟨e1, e2, e3⟩ | ⟨q', e1, e2, r, hr, e3, e5, e4⟩
   · simp only [e1.inCall, Bool.true_eq_false, ↓reduceIte]
     have sm := sendMaybe_general _ [] T e1 d1
     have sw := sendMaybe_wires (drain (q.length + 1) (beginPub p payload) [0] t).1
     have ss := (sendMaybe_spec (drain (q.length + 1) (beginPub p payload) [0] t).1).2.2.2.2
-    have hmono : p.minSendId ≤ (sendMaybe (drain (q.length + 1) (beginPub p payload) [0] t).1).1.minSendId := by
+    have hval : (sendMaybe (drain (q.length + 1) (beginPub p payload) [0] t).1).1.minSendId = p.minSendId ∨
+        (sendMaybe (drain (q.length + 1) (beginPub p payload) [0] t).1).1.minSendId = p.minSendId + 1 := by
       rcases ss with ⟨_, e⟩ | ⟨_, e⟩
-      · rw [e, e2, hmin0]; exact Int.le_refl _
-      · rw [e, e3, hmsg]; omega
+      · left; rw [e, e2, hmin0]
+      · right; rw [e, e3, hmsg]
+    have hmono : p.minSendId ≤ (sendMaybe (drain (q.length + 1) (beginPub p payload) [0] t).1).1.minSendId := by
+      rcases hval with e | e <;> omega
     have hw : ∀ (tail : List Send.Out), tail.filterMap wireOf = [] →
         ∀ w ∈ ((drain (q.length + 1) (beginPub p payload) [0] t).2 ++
           (sendMaybe (drain (q.length + 1) (beginPub p payload) [0] t).1).2.1 ++ tail).filterMap wireOf,
@@ -633,11 +638,11 @@ theorem send0_facts (p : Send.St) (q : List Req) (payload : Payload) (t T : Int)
       have := sw w hwm
       rw [e3, hmsg] at this; exact this
     split
-    · exact ⟨[], ⟨sm.1, sm.2.1, sm.2.2.1, rfl, sm.2.2.2.2.1⟩, ⟨q, by simp⟩, hmono, sm.2.2.2.2.2, hw _ rfl, Or.inl rfl⟩
-    · exact ⟨[], ⟨sm.1, sm.2.1, sm.2.2.1, rfl, sm.2.2.2.2.1⟩, ⟨q, by simp⟩, hmono, sm.2.2.2.2.2, hw _ rfl, Or.inl rfl⟩
+    · exact ⟨[], ⟨sm.1, sm.2.1, sm.2.2.1, rfl, sm.2.2.2.2.1⟩, ⟨q, by simp⟩, hmono, sm.2.2.2.2.2, hw _ rfl, Or.inl ⟨rfl, hval⟩⟩
+    · exact ⟨[], ⟨sm.1, sm.2.1, sm.2.2.1, rfl, sm.2.2.2.2.1⟩, ⟨q, by simp⟩, hmono, sm.2.2.2.2.2, hw _ rfl, Or.inl ⟨rfl, hval⟩⟩
   · simp only [e1.inCall, ↓reduceIte]
     rw [hmsg] at e3
-    refine ⟨q', e1, e2, by rw [e4]; omega, d1, ?_, Or.inr ⟨r, hr, e3, e4, d2⟩⟩
+    refine ⟨q', e1, e2, by rw [e4]; omega, d1, ?_, Or.inr ⟨r, hr, e3, e5, e4, d2⟩⟩
     intro w hw; rw [d2] at hw; cases hw
 
 /-- nothing queued: the call changes nothing that matters and puts nothing on the wire -/
